@@ -64,7 +64,7 @@ func c04Run(raw []byte) (*Line, error) {
 		if len(x1) >= 2 {
 			trec = (hi - mean) * math.Sqrt(float64(len(x1))) / stats.StdDev(x1)
 			if !math.IsNaN(trec) && !math.IsInf(trec, 0) {
-				fneg = stats.TDist{V: float64(len(x1) - 1)}.CDF(-trec)
+				catch(func() { fneg = stats.TDist{V: float64(len(x1) - 1)}.CDF(-trec) })
 			}
 		}
 		l.Fs(x1).F(float64(c.C)).F(mean).F(lo).F(hi).F(trec).F(fneg)
@@ -90,7 +90,11 @@ func c04Run(raw []byte) (*Line, error) {
 		return l, nil
 	}
 	d := stats.TDist{V: res.DoF}
-	l.I(0).I(res.N1).I(res.N2).F(res.T).F(res.DoF).I(int(res.AltHypothesis)).F(res.P).F(d.CDF(res.T)).F(d.CDF(math.Abs(res.T)))
+	// the CDF is an oracle here (C05 judges it): a panic inside it is recorded as a non-value
+	cT, cA := math.NaN(), math.NaN()
+	catch(func() { cT = d.CDF(res.T) })
+	catch(func() { cA = d.CDF(math.Abs(res.T)) })
+	l.I(0).I(res.N1).I(res.N2).F(res.T).F(res.DoF).I(int(res.AltHypothesis)).F(res.P).F(cT).F(cA)
 	return l, nil
 }
 
